@@ -18,6 +18,7 @@ def parseMode : String → Option Mode
   | "o" => some .ordered
   | "u" => some .unordered
   | "x" => some .utxo
+  | "e" => some .utxo      -- a scan that starts from an empty set: the same protocol
   | _ => none
 
 /-- a height index relative to `from` (may be negative in a trace of broken code: then no event) -/
